@@ -700,7 +700,7 @@ def monitor(name):
     return deco
 
 
-def fail_fast(ctx, cases, monitors, n_probe=1200, timeout=600):
+def fail_fast(ctx, cases, monitors, n_probe=1200, timeout=240):
     """A probe before the full exploration: every k-th case (about `n_probe` of them) in a fresh pool, in their enumeration order
     inside each worker.  If a monitor already fails there, the exploration is cut down to the probe — the failing input is
     reported within seconds instead of after the whole enumeration (which a broken tree can make arbitrarily slow, e.g. when
@@ -716,7 +716,12 @@ def fail_fast(ctx, cases, monitors, n_probe=1200, timeout=600):
         recs = pool.map_async(_work, work, chunksize=8).get(timeout=timeout)
     except mp.TimeoutError:
         pool.terminate()
-        ctx.note(f'probe of {len(probe)} cases did not complete within {timeout} s')
+        pool.terminate()
+        msg = (f'a probe of {len(probe)} cases did not complete within {timeout} s (it takes seconds on the unchanged tree): '
+               'the code under test blocks or no longer terminates')
+        if getattr(ctx, 'give_up', None) is not None:
+            ctx.give_up(msg)
+        ctx.note(msg)
         return cases
     finally:
         pool.terminate()
